@@ -5,7 +5,7 @@ Open Scope N_scope.
 
 (* conversion off: the host branch is never taken *)
 Theorem C17_host_off_identity : forall o l endp st,
-  convert_host o = false -> qrule o l endp st = qr_loop o (skip_ws l) false false None st.
+  convert_host o = false -> qrule o l endp st = qr_loop o (skip_ws l) false false st.
 Proof. exact host_off_identity. Qed.
 Print Assumptions C17_host_off_identity.
 
